@@ -23,5 +23,38 @@ p = os.path.join(V, "DESIGN.md")
 s = open(p).read()
 _new = "<!-- SEED-TABLE-BEGIN -->\n" + head + "\n".join(rows) + "\n<!-- SEED-TABLE-END -->"
 s = re.sub(r"<!-- SEED-TABLE-BEGIN -->.*<!-- SEED-TABLE-END -->", lambda m: _new, s, flags=re.S)
+# ---- rules per property, from sa/props/cNN.py and the RuleResult names in sa/rules/*.py
+import ast as _ast, glob as _glob
+rule_names = {}
+for fn in _glob.glob(os.path.join(V, "sa", "rules", "*.py")):
+    mod = os.path.basename(fn)[:-3]
+    tree = _ast.parse(open(fn).read())
+    for f in tree.body:
+        if isinstance(f, _ast.FunctionDef):
+            for x in _ast.walk(f):
+                if isinstance(x, _ast.Call) and getattr(x.func, "id", "") == "RuleResult" and x.args and isinstance(x.args[0], _ast.Constant):
+                    rule_names.setdefault(f"{mod}.{f.name}", x.args[0].value)
+                    break
+trows = ["| property | rules (entry of R-EXC in brackets; several functions may report under one rule name) |", "|---|---|"]
+for i in range(1, 21):
+    src = open(os.path.join(V, "sa", "props", f"c{i:02d}.py")).read()
+    names = []
+    for m_ in re.finditer(r"lambda: (\w+)\.(\w+)\(ctx(?:, '([^']*)')?\)", src):
+        mod, fn, arg = m_.groups()
+        nm = f"R-EXC[{arg}]" if (mod, fn) == ("exc", "run") else rule_names.get(f"{mod}.{fn}", f"{mod}.{fn}")
+        if fn == "rule_fwd_assid":
+            nm = "R-FWD(as_sid)"
+        elif fn == "rule_fwd_chain":
+            nm = "R-FWD(chains)"
+        elif fn == "rule_fwd_config":
+            nm = "R-FWD(config)"
+        if nm not in names:
+            names.append(nm)
+    trows.append(f"| C{i:02d} | {' '.join(names)} |")
+_t = "<!-- RULE-TABLE-BEGIN -->\n" + "\n".join(trows) + "\n<!-- RULE-TABLE-END -->"
+if "<!-- RULE-TABLE-BEGIN -->" in s:
+    s = re.sub(r"<!-- RULE-TABLE-BEGIN -->.*<!-- RULE-TABLE-END -->", lambda m: _t, s, flags=re.S)
+else:
+    s = re.sub(r"\| property \| rules \(entry of R-EXC in brackets\) \|\n\|---\|---\|\n(\| C\d\d \|.*\n)+", lambda m: _t + "\n", s)
 open(p, "w").write(s)
 print(n, "seeds;", own, "caught by own property")
